@@ -14,7 +14,7 @@ class World(object):
         self.sim = sim
         self.net = simnet.Net(sim)
         self.fs = None
-        self.provider_tasks = {}
+        self.provider_tasks = []
 
 
 def install(sim, fs=None):
@@ -35,8 +35,9 @@ def install(sim, fs=None):
         setattr(obj, name, value)
 
     def start(self):
+        # (numbered by order of creation: an id() may be used again once a provider is gone)
         t = sim.spawn(self.run, name='dul%d' % len(world.provider_tasks), role='dul')
-        world.provider_tasks[id(self)] = t
+        world.provider_tasks.append(t)
         self._sim_task = t
 
     patch(dulprovider.DULServiceProvider, 'start', start)
